@@ -323,7 +323,20 @@ impl<'a> G<'a> {
             23 => "return;".to_string(),
             24 => self.r.pick(&["break;", "continue;", "end;"]).to_string(),
             25 => format!("{};", self.expr(2)),
-            26 => "include \"stdgates.inc\";".to_string(),
+            26 => self
+                .r
+                .pick(&[
+                    "include \"stdgates.inc\";",
+                    "include \"stdgates.inc\";",
+                    "include \"stdgates.inc\";",
+                    "include 'stdgates.inc';",
+                    "include \"qelib/stdgates.inc\";",
+                    "include \"./no_such_dir/stdgates.inc\";",
+                    "include \"no_such_file.inc\";",
+                    "include \"\";",
+                ])
+                .to_string(),
+            28 if self.r.chance(1, 4) => self.r.pick(&["pragma\n", "#pragma\n", "pragma \n", "#pragma x\r\n", "pragma\r\n"]).to_string(),
             27 => format!("{} {} {};", self.r.pick(&["input", "output"]), self.ty(), self.name()),
             28 => "pragma some text here\n".to_string(),
             29 => "@annot some words\n".to_string(),
